@@ -119,6 +119,43 @@ def after_op(res, sysobj, sm, tr):
     return cb
 
 
+def bidir_stream(res, rng, n):
+    """stateless cells that also read an in/out port: BidirBuf between a pad (BidirWire) and ordinary logic; the pad, the output
+    enable and the data are poked between clock calls (each alone, the others unchanged); after every clk() the netlist must sit at
+    its fixpoint: `pin` follows the pad while poe = 0, the pad follows `pout` while poe = 1, and everything downstream follows"""
+    import py4hw, contextlib, io
+    for i in range(n):
+        r = rng.fork(i)
+        w = r.randint(1, 8)
+        hw = py4hw.HWSystem()
+        pad = hw.bidir_wire('pad', w)
+        pin, pout, poe = hw.wire('pin', w), hw.wire('pout', w), hw.wire('poe', 1)
+        npin, x = hw.wire('npin', w), hw.wire('x', w)
+        order = r.shuffle(range(3))
+        for k in order:
+            if k == 0:
+                py4hw.BidirBuf(hw, 'buf', pin, pout, poe, pad)
+            elif k == 1:
+                py4hw.Not(hw, 'inv', pin, npin)
+            else:
+                py4hw.And2(hw, 'and', npin, pout, x)
+        with contextlib.redirect_stdout(io.StringIO()):
+            sim = hw.getSimulator()
+        sm = dict(design='BidirBuf(pin, pout, poe, pad) -> Not -> And2', width=w, inst_order=order, cycle_length=None, depth=3, n_leaves=3)
+        hist = []
+        ok = refixpoint_oracle(res, hw, dict(sm, history=hist), 'after simulator construction')
+        for t in range(r.randint(3, 10)):
+            tgt = r.choice(['pad', 'pad', 'poe', 'pout'])
+            v = r.bits(w if tgt != 'poe' else 1)
+            {'pad': pad, 'poe': poe, 'pout': pout}[tgt].put(v)
+            hist.append((tgt, v))
+            sim.clk(1)
+            hist.append(('clk', 1))
+            if ok:
+                ok = refixpoint_oracle(res, hw, dict(sm, history=list(hist)), 'after clk()')
+        res.count(('bidir', i, w, tuple(order)), hist={'bidir_designs': 'BidirBuf'})
+
+
 def exhaustive_digraphs(res, rng, tier, lim):
     """EVERY digraph (self-loops included) on n leaves with the leaves instantiated in index order — relabelling makes this
     every instantiation order of every netlist shape on n leaves: real sorter (stub leaves with arbitrary fan-in) vs the Lean
@@ -285,8 +322,10 @@ def main(res, tier, rng, replay):
     for i in range(n_designs):
         r = rng.fork(('d', i))
         size = r.choice([2, 3, 5, 8, 13, 30]) if tier == 'quick' else r.choice([2, 3, 5, 8, 13, 30, 80, 200])
+        # every fifth design spreads its leaves over several clock domains (gated drivers on containers): combinational paths
+        # cross the domains and must be ordered like any other path
         plan = G.random_plan(r, size, seq_ratio=(1, 6), wmax=r.choice([1, 3, 8]),
-                             kinds=COMB_KINDS + ['Reg', 'Sequence'])
+                             kinds=COMB_KINDS + ['Reg', 'Sequence'], n_domains=(r.fork('nd').randint(1, 3) if i % 5 == 4 else 0))
         ring = 0
         if i % 3 == 2:
             G.register_inputs(plan)
@@ -337,6 +376,18 @@ def main(res, tier, rng, replay):
             refixpoint_oracle(res, sysobj, sm, 'after simulator construction')
             ops = [(o[0], o[1].name, o[2]) if o[0] == 'poke' else o for o in G.random_ops(r.fork('ops'), ins, 6)]
             names = {w.name: w for w in D.all_wires(sysobj)}
+            if i % 4 == 3:
+                # disturbances: a combinationally driven wire is overwritten from outside between clock calls while the inputs of its
+                # driver keep their values; the next clk() must bring the netlist back to its fixpoint
+                rd = r.fork('disturb')
+                pool = sorted(names)
+                ops2 = []
+                for o in ops:
+                    if o[0] == 'clk' and rd.chance(2, 3):
+                        wn = rd.choice(pool)
+                        ops2.append(('poke', wn, rd.bits(max(1, names[wn].getWidth()))))
+                    ops2.append(o)
+                ops = ops2
             tr = []
             real_ops = [('poke', names[o[1]], o[2]) if o[0] == 'poke' else o for o in ops]
             if cyc is None:
@@ -357,6 +408,7 @@ def main(res, tier, rng, replay):
     except ToolFailure as e:
         res.broken.append(('correspondence', 'net-sim', str(e)[:300]))
     late_additions(res, rng.fork('late'), 60 if tier == 'quick' else 1200)
+    bidir_stream(res, rng.fork('bidir'), 40 if tier == 'quick' else 800)
     try:
         exhaustive_digraphs(res, rng.fork('digraphs'), tier, lim)
     except ToolFailure as e:
